@@ -126,6 +126,36 @@ pub fn name_case_strategy() -> impl Strategy<Value = NameCase> {
 }
 
 // ---------------------------------------------------------------------------
+// hostile ELF images in target memory (arena) through the process-memory readers
+// ---------------------------------------------------------------------------
+
+pub fn check_arena_elf(c: &crate::props::c14::KitCase) -> Verdict {
+    use crate::vcore::elf::*;
+    use minidump_writer::module_reader::{BuildId, ProcessReader, ReadFromModule, SoName};
+    let mut bt = build(&c.spec);
+    for (sel, v) in &c.corruptions {
+        corrupt(&mut bt, c.spec.little, *sel, *v);
+    }
+    let mem = bt.memory_image();
+    let r = with_arena(|a| {
+        for x in a.bytes().iter_mut() {
+            *x = 0;
+        }
+        a.write(0, &mem);
+        let pid = a.pid();
+        with_watchdog(20.0, || {
+            let id = BuildId::read_from_module(ProcessReader::new(pid, ARENA as usize).into()).is_ok();
+            let so = SoName::read_from_module(ProcessReader::new(pid, ARENA as usize).into()).is_ok();
+            (id, so)
+        })
+    });
+    match r {
+        Ok((id, so)) => Verdict::pass_c(Some(fp_json(c)), vec![format!("id:{}", if id { "ok" } else { "err" }), format!("soname:{}", if so { "ok" } else { "err" })]),
+        Err(e) => Verdict::Inconclusive(format!("arena: {e}")),
+    }
+}
+
+// ---------------------------------------------------------------------------
 // live: hostile registers / stack pointers / names x options
 // ---------------------------------------------------------------------------
 
@@ -386,9 +416,20 @@ fn hostile_name_strategy() -> impl Strategy<Value = Vec<u8>> {
 pub fn run(ctx: &mut LaneCtx) {
     ctx.run_sub(
         SubSpec {
+            name: "arena-hostile-elf",
+            cases: (12_000, 600_000),
+            rule: "ELF kit images with 1..3 structure-aware corruptions (every header / program header / section header / note / dynamic field := boundary values incl. 2^63, u64::MAX-7, len+-k) placed in the memory of the arena helper and read through the process-memory path (ProcessReader -> MemReader) of the BuildId and SoName readers; oracle = Ok or Err within 20 s, no panic, no abort; every case non-trivial; distinct = hash of case",
+            strategy: (crate::props::c14::spec_strategy(), proptest::collection::vec((any::<u16>(), crate::props::c14::corrupt_val_strategy()), 1..4)).prop_map(|(spec, corruptions)| crate::props::c14::KitCase { spec, corruptions }).boxed(),
+            max_shrink_iters: 1024,
+            log_current: true,
+        },
+        check_arena_elf,
+    );
+    ctx.run_sub(
+        SubSpec {
             name: "live-hostile",
             cases: (1_200, 40_000),
-            rule: "live targets (as C01) with emphasis on hostile values: crash-context rip/rsp and principal address from {0, 1, 4095, 2^47-8, 2^47, 0xffff800000000000, [vsyscall], top of the address space, unmapped, misaligned, inside stacks/mappings}, thread stack pointers in guard pages and holes, non-UTF-8 thread names, all option combinations; oracle = dump returns Ok or Err within 30 s, no panic; non-trivial = at least one hostile value; distinct = hash of case",
+            rule: "live targets (as C01) with emphasis on hostile values: crash-context rip/rsp and principal address from {0, 1, 4095, 2^47-8, 2^47, 0xffff800000000000, [vsyscall], top of the address space, unmapped, misaligned, inside stacks/mappings}, thread stack pointers in guard pages and holes, non-UTF-8 thread names, application memory lengths up to usize::MAX, all option combinations; oracle = dump returns Ok or Err within 30 s, no panic; non-trivial = at least one hostile value; distinct = hash of case",
             strategy: crate::props::c01::case_strategy(10).boxed(),
             max_shrink_iters: 150,
             log_current: true,
@@ -458,6 +499,7 @@ pub fn replay(sub: &str, case: &Value) -> Verdict {
         "dso-direct" => replay_case::<DsoCase>(case, check_dso),
         "hostile-names" => replay_case::<NameCase>(case, check_name),
         "live-hostile" => replay_case::<crate::props::c01::Case>(case, check_live),
+        "arena-hostile-elf" => replay_case::<crate::props::c14::KitCase>(case, check_arena_elf),
         "dev-rule" => replay_case::<DevCase>(case, check_dev),
         "live-pivot-names" => replay_case::<PivotCase>(case, check_pivot),
         "maps-text" => replay_case::<MapsCase>(case, check_maps_text),
